@@ -1,4 +1,5 @@
 import SameVerif.Lemmas.ReceiverFacts
+import SameVerif.Model.FramerRun
 /-
   C09 — Every StartOfMessage is eventually closed: the forced end-of-message timer of the
   receiver glue (`process_transportlayer` / `process()`), model `SameVerif/Model/Receiver.lean`.
@@ -292,4 +293,107 @@ example : (rRun 1 st0 [(10, 5, .noCarrier)]).1.forceEomAt = some 145 := by rfl
 example : (rTick 1 { transportState := .message (.ok .eom), forceEomAt := some 0 } 1 0 .noCarrier).2 = [] := by
   rfl
 
+end SameVerif.C09
+
+namespace SameVerif.C09
+open SameVerif
+
+/-! ### F9 — the prefix search can be prolonged for ever by re-synchronisations (model witness) -/
+
+/-- feed `(byte, restart)` pairs -/
+def feedR (c : FCfg) : FState → List (Byte × Bool) → List LinkSt
+  | _, [] => []
+  | s, (b, r) :: bs => (finput c s b r).2 :: feedR c (finput c s b r).1 bs
+
+/-- a preamble byte stream that is re-synchronised at every `k`-th byte -/
+def slipping (k n : Nat) : List (Byte × Bool) := (List.range n).map (fun i => (0xAB, i % k == 0))
+
+/-- the four words a search started on preamble bytes can hold are far from both prefixes -/
+theorem preamble_words_far :
+    7 < prefixErrors 0x000000AB ∧ 7 < prefixErrors 0x0000ABAB ∧ 7 < prefixErrors 0x00ABABAB
+      ∧ 7 < prefixErrors 0xABABABAB := by decide
+
+/-- the words reachable from a restart on preamble bytes -/
+def PreWord (w : UInt32) : Prop := w = 0x000000AB ∨ w = 0x0000ABAB ∨ w = 0x00ABABAB ∨ w = 0xABABABAB
+
+theorem preWord_step (w : UInt32) (h : PreWord w ∨ w = 0) : PreWord ((w <<< 8) ||| (0xAB : Byte).toUInt32) := by
+  rcases h with (h | h | h | h) | h <;> subst h <;> unfold PreWord <;> decide
+
+theorem preWord_far (c : FCfg) (hP : c.maxPrefixErr ≤ 7) (w : UInt32) (h : PreWord w) :
+    ¬ prefixErrors w ≤ c.maxPrefixErr := by
+  obtain ⟨h1, h2, h3, h4⟩ := preamble_words_far
+  rcases h with h | h | h | h <;> subst h <;> omega
+
+/-- one byte of the slipping stream from a searching state whose counter is small enough keeps searching -/
+theorem search_step (c : FCfg) (hP : c.maxPrefixErr ≤ 7) (w : UInt32) (cnt : Nat) (r : Bool)
+    (hw : PreWord w ∨ w = 0) (hc : r = true ∨ cnt + 1 ≤ Gen.PREFIX_SEARCH_LEN) :
+    ∃ w' cnt', finput c (.search w cnt) 0xAB r = (.search w' cnt', .searching) ∧ PreWord w'
+      ∧ cnt' = (if r then 1 else cnt + 1) := by
+  cases r with
+  | true =>
+    have hw' := preWord_step 0 (Or.inr rfl)
+    have hf := preWord_far c hP _ hw'
+    refine ⟨_, 1, ?_, hw', rfl⟩
+    simp only [finput, fend, finputNR, ↓reduceIte]
+    rw [if_neg hf, if_neg (by decide)]
+  | false =>
+    have hw' := preWord_step w hw
+    have hf := preWord_far c hP _ hw'
+    have hc' : cnt + 1 ≤ Gen.PREFIX_SEARCH_LEN := by rcases hc with h | h; cases h; exact h
+    refine ⟨_, cnt + 1, ?_, hw', rfl⟩
+    simp only [finput, finputNR, Bool.false_eq_true, ↓reduceIte]
+    rw [if_neg hf, if_neg (by omega)]
+
+/-- **F9 (model witness).**  Preamble bytes re-synchronised at every `k`-th byte, `1 ≤ k ≤ 21`: from a
+    searching state the framer reports `searching` at EVERY byte, for streams of ANY length — the
+    21-byte give-up never happens, the link layer never reports `noCarrier`. -/
+theorem search_restart_unbounded (c : FCfg) (hP : c.maxPrefixErr ≤ 7) (k : Nat) (hk1 : 1 ≤ k)
+    (hk : k ≤ Gen.PREFIX_SEARCH_LEN) (n : Nat) :
+    ∀ ls ∈ feedR c (.search 0 0) (slipping k n), ls = .searching := by
+  -- generalise over the offset `j` into the stream; invariant: off a restart position the counter is at most
+  -- the number of bytes since the last restart
+  suffices h : ∀ (m j : Nat) (w : UInt32) (cnt : Nat), (PreWord w ∨ w = 0) →
+      (j % k ≠ 0 → cnt ≤ j % k) →
+      ∀ ls ∈ feedR c (.search w cnt) ((List.range m).map (fun i => ((0xAB : Byte), (j + i) % k == 0))),
+        ls = .searching by
+    have := h n 0 0 0 (Or.inr rfl) (fun _ => Nat.zero_le _)
+    simpa [slipping] using this
+  intro m
+  induction m with
+  | zero => intro j w cnt _ _ ls hls; simp [feedR] at hls
+  | succ m ih =>
+    intro j w cnt hw hcnt ls hls
+    rw [List.range_succ_eq_map, List.map_cons, List.map_map] at hls
+    simp only [Nat.add_zero] at hls
+    have hmod : j % k < k := Nat.mod_lt _ (by omega)
+    have hc : (j % k == 0) = true ∨ cnt + 1 ≤ Gen.PREFIX_SEARCH_LEN := by
+      by_cases h0 : j % k = 0
+      · left; simp [h0]
+      · right; have := hcnt h0; omega
+    obtain ⟨w', cnt', hstep, hw', hcnt'⟩ := search_step c hP w cnt (j % k == 0) hw hc
+    simp only [feedR, hstep, List.mem_cons] at hls
+    rcases hls with rfl | hls
+    · rfl
+    · have hfun : ((fun i => ((0xAB : Byte), (j + i) % k == 0)) ∘ Nat.succ)
+          = (fun i => ((0xAB : Byte), (j + 1 + i) % k == 0)) := by
+        funext i
+        have : j + Nat.succ i = j + 1 + i := by omega
+        simp only [Function.comp, this]
+      rw [hfun] at hls
+      have hnext : (j + 1) % k ≠ 0 → cnt' ≤ (j + 1) % k := by
+        intro hne
+        have hsucc : (j + 1) % k = (j % k + 1) % k := by
+          conv => lhs; rw [Nat.add_mod]
+          conv => rhs; rw [Nat.add_mod, Nat.mod_mod]
+        by_cases hwrap : j % k + 1 = k
+        · exfalso; apply hne; rw [hsucc, hwrap, Nat.mod_self]
+        · have hlt : j % k + 1 < k := by omega
+          rw [hsucc, Nat.mod_eq_of_lt hlt]
+          rw [hcnt']
+          by_cases h0 : j % k = 0
+          · simp [h0]
+          · have hb : (j % k == 0) = false := by simp [h0]
+            simp only [hb, Bool.false_eq_true, ↓reduceIte]
+            have := hcnt h0; omega
+      exact ih (j + 1) w' cnt' (Or.inl hw') hnext ls hls
 end SameVerif.C09
